@@ -7,6 +7,11 @@
 // more pass is run through the export shim. After each pass the set of deleted regular files is compared
 // with the reference model: {files that are, as a whole name, the segment of a path P whose configuration
 // (conf.FindPathConf) has recordDeleteAfter != 0 and whose start < now - recordDeleteAfter}.
+//
+// Two families of scenarios: the "common" ones share a pool of files around the delays, with look-alikes and
+// foreign files, under layouts whose lexical order is chronological; the "order" ones (order.go) have layouts
+// whose lexical (directory walk) order is NOT chronological and pools of instants chosen so that fresh and
+// expired segments of one path alternate in walk order.
 package main
 
 import (
@@ -45,6 +50,10 @@ type scenario struct {
 	name    string
 	confs   []pc
 	primary string // layout format for paths that resolve to no configuration
+	// order scenarios (order.go): an own pool, enumerated up to ownQuick / ownThorough files per tree
+	own         []entry
+	ownQuick    int
+	ownThorough int
 }
 
 const (
@@ -60,63 +69,64 @@ var scenarios = []scenario{
 		{"a", "", fDefault, 1 * h, 0},
 		{"a/b", "", fDefault, 0, 1 * h},
 		{"~^r", "^r", fDefault, 2 * h, 1 * h},
-	}, fDefault},
+	}, fDefault, nil, 0, 0},
 	{"underscore", []pc{
 		{"a", "", fUnderscore, 1 * h, 0},
 		{"a/b", "", fUnderscore, 0, 1 * h},
 		{"~^r", "^r", fUnderscore, 2 * h, 1 * h},
-	}, fUnderscore},
+	}, fUnderscore, nil, 0, 0},
 	{"shared-prefix", []pc{
 		{"a", "", fDefault, 1 * h, 2 * h},
 		{"a/b", "", "%R/rec2/%path/%Y-%m-%d_%H-%M-%S-%f", 0, 1 * h},
 		{"~^r", "^r", "%R/rec/a/%path/%Y-%m-%d_%H-%M-%S-%f", 2 * h, 0},
-	}, fDefault},
+	}, fDefault, nil, 0, 0},
 	{"catch-all", []pc{
 		{"all_others", "^.*$", fDefault, h / 2, 2 * h},
 		{"a", "", fDefault, 0, 1 * h},
-	}, fDefault},
+	}, fDefault, nil, 0, 0},
 	{"date-dirs", []pc{
 		{"a", "", fDateDirs, 1 * h, 0},
 		{"a/b", "", fDateDirs, 0, 1 * h},
 		{"~^r", "^r", fDateDirs, 2 * h, 1 * h},
-	}, fDateDirs},
+	}, fDateDirs, nil, 0, 0},
 	{"unix", []pc{
 		{"a", "", fUnix, 1 * h, 0},
 		{"a/b", "", fUnix, 0, 1 * h},
 		{"~^r", "^r", fUnix, 2 * h, 1 * h},
-	}, fUnix},
+	}, fUnix, nil, 0, 0},
 }
 
 // pool entry: a file of the tree.
 type entry struct {
 	id   string
-	path string        // path name ("" for foreign files); %X = the root-repeating path name
-	age  time.Duration // start = now - age
-	dev  string        // "", "suffix:.bak", "child", "digit-dropped", "foreign:<relative name>"
+	path string         // path name ("" for foreign files); %X = the root-repeating path name
+	age  time.Duration  // start = now - age
+	dev  string         // "", "suffix:.bak", "child", "digit-dropped", "foreign:<relative name>"
+	zone *time.Location // zone the recorder's clock carried at that instant (nil: the server zone, time.Local)
 }
 
 const us = time.Microsecond
 
 var pool = []entry{
-	{"a@1h+1us", "a", 1*h + us, ""},
-	{"a@1h", "a", 1 * h, ""},
-	{"a@1h-1us", "a", 1*h - us, ""},
-	{"a@400d", "a", 400 * 24 * h, ""},
-	{"a/b@400d", "a/b", 400 * 24 * h, ""},
-	{"a/b@1h-1us", "a/b", 1*h - us, ""},
-	{"r1@3h", "r1", 3 * h, ""},
-	{"r1@90m", "r1", 90 * time.Minute, ""},
-	{"r1@2h", "r1", 2 * h, ""},
-	{"r2@400d", "r2", 400 * 24 * h, ""},
-	{"zz@400d", "zz", 400 * 24 * h, ""},
-	{"xRa@400d", "%X", 400 * 24 * h, ""},
-	{"a@401d.bak", "a", 401 * 24 * h, "suffix:.bak"},
-	{"a@402d/child", "a", 402 * 24 * h, "child"},
-	{"r1@400d.tmp", "r1", 400 * 24 * h, "suffix:.tmp"},
-	{"a@10m.bak", "a", 10 * time.Minute, "suffix:.bak"},
-	{"a@403d-digit", "a", 403 * 24 * h, "digit-dropped"},
-	{"foreign-in-a", "", 0, "foreign:rec/a/notes.txt"},
-	{"foreign-root", "", 0, "foreign:rec/readme.txt"},
+	{"a@1h+1us", "a", 1*h + us, "", nil},
+	{"a@1h", "a", 1 * h, "", nil},
+	{"a@1h-1us", "a", 1*h - us, "", nil},
+	{"a@400d", "a", 400 * 24 * h, "", nil},
+	{"a/b@400d", "a/b", 400 * 24 * h, "", nil},
+	{"a/b@1h-1us", "a/b", 1*h - us, "", nil},
+	{"r1@3h", "r1", 3 * h, "", nil},
+	{"r1@90m", "r1", 90 * time.Minute, "", nil},
+	{"r1@2h", "r1", 2 * h, "", nil},
+	{"r2@400d", "r2", 400 * 24 * h, "", nil},
+	{"zz@400d", "zz", 400 * 24 * h, "", nil},
+	{"xRa@400d", "%X", 400 * 24 * h, "", nil},
+	{"a@401d.bak", "a", 401 * 24 * h, "suffix:.bak", nil},
+	{"a@402d/child", "a", 402 * 24 * h, "child", nil},
+	{"r1@400d.tmp", "r1", 400 * 24 * h, "suffix:.tmp", nil},
+	{"a@10m.bak", "a", 10 * time.Minute, "suffix:.bak", nil},
+	{"a@403d-digit", "a", 403 * 24 * h, "digit-dropped", nil},
+	{"foreign-in-a", "", 0, "foreign:rec/a/notes.txt", nil},
+	{"foreign-root", "", 0, "foreign:rec/readme.txt", nil},
 }
 
 func buildConfs(sc scenario, root string, second bool) map[string]*conf.Path {
@@ -210,6 +220,71 @@ func snapshot(root string) map[string]string {
 	return out
 }
 
+// placed is a pool entry laid out in a tree.
+type placed struct {
+	e     entry
+	fpath string
+}
+
+// layout writes the files idxs of the scenario's pool below root, named as the recorders would have named them.
+func layout(sc scenario, root string, confs1 map[string]*conf.Path, now time.Time, idxs []int) ([]placed, []string, error) {
+	pl := pool
+	if sc.own != nil {
+		pl = sc.own
+	}
+	xPath := "x/" + strings.TrimPrefix(filepath.Join(root, "rec"), "/") + "/a"
+	c26lib.CheckPathNameRule(xPath)
+	var files []placed
+	var ids []string
+	for _, pi := range idxs {
+		e := pl[pi]
+		ids = append(ids, e.id)
+		var fpath string
+		if strings.HasPrefix(e.dev, "foreign:") {
+			fpath = filepath.Join(root, strings.TrimPrefix(e.dev, "foreign:"))
+		} else {
+			pn := e.path
+			if pn == "%X" {
+				pn = xPath
+			}
+			rp := strings.ReplaceAll(sc.primary, "%R", root)
+			if c, _, err := conf.FindPathConf(confs1, pn); err == nil {
+				rp = c.RecordPath
+			}
+			start := now.Add(-e.age)
+			if e.zone != nil {
+				start = start.In(e.zone)
+			}
+			fpath = recordstore.Path{Start: start}.Encode(
+				recordstore.PathAddExtension(strings.ReplaceAll(rp, "%path", pn), conf.RecordFormatFMP4))
+			if m := c26lib.ModelEncode(c26lib.Tokenize(recordstore.PathAddExtension(rp, conf.RecordFormatFMP4)), pn, start); m != fpath {
+				return nil, nil, fmt.Errorf("model encoding %q != recorder's %q", m, fpath)
+			}
+			switch {
+			case strings.HasPrefix(e.dev, "suffix:"):
+				fpath += strings.TrimPrefix(e.dev, "suffix:")
+			case e.dev == "child":
+				fpath = filepath.Join(fpath, "child.txt")
+			case e.dev == "digit-dropped":
+				// drop the last digit of the name (microseconds get 5 digits)
+				ext := filepath.Ext(fpath)
+				fpath = fpath[:len(fpath)-len(ext)-1] + ext
+			}
+		}
+		if err := os.MkdirAll(filepath.Dir(fpath), 0o755); err != nil {
+			return nil, nil, err
+		}
+		if _, err := os.Stat(fpath); err == nil {
+			return nil, nil, fmt.Errorf("two pool entries have the name %q", fpath)
+		}
+		if err := os.WriteFile(fpath, []byte("content of "+e.id), 0o644); err != nil {
+			return nil, nil, err
+		}
+		files = append(files, placed{e, fpath})
+	}
+	return files, ids, nil
+}
+
 func main() {
 	r := vcommon.Start("C30", "model_checking")
 	maxFiles := 3
@@ -234,23 +309,45 @@ func main() {
 		vcommon.Harness(format, a...)
 	}
 
-	// all subsets of the pool of size <= maxFiles
-	var subsets [][]int
-	var gen func(start int, cur []int)
-	gen = func(start int, cur []int) {
-		subsets = append(subsets, append([]int(nil), cur...))
-		if len(cur) == maxFiles {
-			return
+	if !now.Equal(nowAbs) {
+		fail("clock constants disagree: %s != %s", now, nowAbs)
+	}
+	scenarios = append(scenarios, orderScenarios...)
+
+	// all subsets of {0..n-1} of size <= max, smallest first
+	subsetsOf := func(n, max int) [][]int {
+		var subsets [][]int
+		var gen func(start int, cur []int)
+		gen = func(start int, cur []int) {
+			subsets = append(subsets, append([]int(nil), cur...))
+			if len(cur) == max {
+				return
+			}
+			for i := start; i < n; i++ {
+				gen(i+1, append(cur, i))
+			}
 		}
-		for i := start; i < len(pool); i++ {
-			gen(i+1, append(cur, i))
+		gen(0, nil)
+		sort.SliceStable(subsets, func(i, j int) bool { return len(subsets[i]) < len(subsets[j]) })
+		return subsets
+	}
+	subsets := subsetsOf(len(pool), maxFiles)
+
+	nOrder, ownQ, ownT := 0, 0, 0
+	for _, sc := range scenarios {
+		if sc.own != nil {
+			nOrder++
+			ownQ, ownT = sc.ownQuick, sc.ownThorough
 		}
 	}
-	gen(0, nil)
-	sort.SliceStable(subsets, func(i, j int) bool { return len(subsets[i]) < len(subsets[j]) })
-
-	r.Rule = fmt.Sprintf("all (scenario of %d) x (subsets of size < %[2]d of a pool of %[3]d files; size %[2]d for the first scenario, in thorough also for catch-all); history = start (pass 1) -> ReloadPathConfs -> pass 2; "+
-		"state = (configuration, set of regular files); distinct = (scenario, pass, pool entry, fate by the model, observed)", len(scenarios), maxFiles, len(pool))
+	ownMax := ownQ
+	if r.Thorough() {
+		ownMax = ownT
+	}
+	r.Rule = fmt.Sprintf("all (common scenario of %d) x (subsets of size < %[2]d of a pool of %[3]d files; size %[2]d for the first scenario, in thorough also for catch-all) "+
+		"+ all (order scenario of %[4]d: layouts whose walk order is not chronological) x (subsets of size <= %[5]d of the scenario's own pool of 10-13 segments alternating fresh/expired in walk order); "+
+		"history = start (pass 1) -> ReloadPathConfs -> pass 2; "+
+		"state = (configuration, set of regular files); distinct = (scenario, pass, pool entry, fate by the model, observed)", len(scenarios)-nOrder, maxFiles, len(pool), nOrder, ownMax)
 
 	type vrec struct {
 		order int
@@ -263,17 +360,45 @@ func main() {
 	states := map[string]bool{}
 	transitions := 0
 	fates := map[string]int{}
+	samples := map[int]any{}
 
-	type job struct{ si, ss int }
+	type job struct {
+		si     int
+		subset []int
+		sample bool
+	}
 	var jobs []job
-	for si := range scenarios {
-		for ss := range subsets {
+	for si, sc := range scenarios {
+		if sc.own != nil {
+			max := sc.ownQuick
+			if r.Thorough() {
+				max = sc.ownThorough
+			}
+			for _, ss := range subsetsOf(len(sc.own), max) {
+				jobs = append(jobs, job{si, ss, len(ss) == 3 && ss[0] == 0 && ss[1] == 1 && ss[2] == 2})
+			}
+			continue
+		}
+		for _, ss := range subsets {
 			// the largest trees only for the first scenario (quick) / the first and the catch-all one (thorough)
-			if len(subsets[ss]) == maxFiles && si != 0 && !(r.Thorough() && scenarios[si].name == "catch-all") {
+			if len(ss) == maxFiles && si != 0 && !(r.Thorough() && sc.name == "catch-all") {
 				continue
 			}
-			jobs = append(jobs, job{si, ss})
+			jobs = append(jobs, job{si, ss, si == 0 && len(ss) == 3 && ss[0] == 0 && ss[1] == 7})
 		}
+	}
+
+	// non-vacuity of the order scenarios: walk order of the whole pool, fresh/expired per path and pass
+	patterns := map[string]string{}
+	for _, sc := range scenarios {
+		if sc.own == nil {
+			continue
+		}
+		root := filepath.Join(base, "order-"+sc.name)
+		if err := orderSelfCheck(sc, root, now, patterns); err != nil {
+			fail("%v", err)
+		}
+		os.RemoveAll(root)
 	}
 
 	vcommon.Parallel(len(jobs), func(k int) {
@@ -286,55 +411,10 @@ func main() {
 		defer os.RemoveAll(root)
 		confs1 := buildConfs(sc, root, false)
 		confs2 := buildConfs(sc, root, true)
-		xPath := "x/" + strings.TrimPrefix(filepath.Join(root, "rec"), "/") + "/a"
-		c26lib.CheckPathNameRule(xPath)
 
-		// lay the tree out as the recorders would have
-		type placed struct {
-			e     entry
-			fpath string
-		}
-		var files []placed
-		var ids []string
-		for _, pi := range subsets[j.ss] {
-			e := pool[pi]
-			ids = append(ids, e.id)
-			var fpath string
-			if strings.HasPrefix(e.dev, "foreign:") {
-				fpath = filepath.Join(root, strings.TrimPrefix(e.dev, "foreign:"))
-			} else {
-				pn := e.path
-				if pn == "%X" {
-					pn = xPath
-				}
-				rp := strings.ReplaceAll(sc.primary, "%R", root)
-				if c, _, err := conf.FindPathConf(confs1, pn); err == nil {
-					rp = c.RecordPath
-				}
-				start := now.Add(-e.age)
-				fpath = recordstore.Path{Start: start}.Encode(
-					recordstore.PathAddExtension(strings.ReplaceAll(rp, "%path", pn), conf.RecordFormatFMP4))
-				if m := c26lib.ModelEncode(c26lib.Tokenize(recordstore.PathAddExtension(rp, conf.RecordFormatFMP4)), pn, start); m != fpath {
-					fail("model encoding %q != recorder's %q", m, fpath)
-				}
-				switch {
-				case strings.HasPrefix(e.dev, "suffix:"):
-					fpath += strings.TrimPrefix(e.dev, "suffix:")
-				case e.dev == "child":
-					fpath = filepath.Join(fpath, "child.txt")
-				case e.dev == "digit-dropped":
-					// drop the last digit of the name (microseconds get 5 digits)
-					ext := filepath.Ext(fpath)
-					fpath = fpath[:len(fpath)-len(ext)-1] + ext
-				}
-			}
-			if err := os.MkdirAll(filepath.Dir(fpath), 0o755); err != nil {
-				fail("%v", err)
-			}
-			if err := os.WriteFile(fpath, []byte("content of "+e.id), 0o644); err != nil {
-				fail("%v", err)
-			}
-			files = append(files, placed{e, fpath})
+		files, ids, err := layout(sc, root, confs1, now, j.subset)
+		if err != nil {
+			fail("%v", err)
 		}
 
 		report := func(order int, key, what string) {
@@ -387,6 +467,9 @@ func main() {
 				case kind == "child":
 					kind = "child-of-directory-named-like-segment"
 				}
+				if sc.own != nil {
+					kind += ":layout-not-chronological:" + sc.name
+				}
 				switch {
 				case obs == "modified":
 					report(k*10+pass, "file-modified:"+kind, fmt.Sprintf("[%s pass %d] %s was modified", sc.name, pass, rel))
@@ -431,10 +514,30 @@ func main() {
 		states[stateKey("conf2", s2)] = true
 		transitions += 3
 		mu.Unlock()
-		if j.si == 0 && len(subsets[j.ss]) == 3 && subsets[j.ss][0] == 0 && subsets[j.ss][1] == 7 {
-			r.Sample(map[string]any{"scenario": sc.name, "files": ids, "after_pass1": len(s1), "after_pass2": len(s2)})
+		if j.sample {
+			mu.Lock()
+			samples[k] = map[string]any{"scenario": sc.name, "files": ids, "after_pass1": len(s1), "after_pass2": len(s2)}
+			mu.Unlock()
 		}
 	})
+	// samples in job order (deterministic), alternating the two families
+	var sk [2][]int
+	for k := range samples {
+		f := 0
+		if scenarios[jobs[k].si].own != nil {
+			f = 1
+		}
+		sk[f] = append(sk[f], k)
+	}
+	sort.Ints(sk[0])
+	sort.Ints(sk[1])
+	for i := 0; i < 4; i++ {
+		for f := 0; f < 2; f++ {
+			if i < len(sk[f]) {
+				r.Sample(samples[sk[f][i]])
+			}
+		}
+	}
 
 	for key, v := range viols {
 		r.Violation(key, v.what, v.rep)
@@ -448,11 +551,15 @@ func main() {
 	r.Set("histories", len(jobs))
 	r.Set("max_depth", 2)
 	r.Set("fate_by_model/observed", fates)
+	r.Set("order_scenarios_walk_order_fresh_expired", patterns)
 	r.Exhaustive = true
 	r.Assumptions = []string{
 		"a file is a segment of path P iff its whole absolute name is the encoding (c26lib reference parser) of (P, instant) under the record path of the configuration P resolves to (conf.FindPathConf, trusted here; C14 judges it)",
 		"a segment starting exactly at now-recordDeleteAfter may be kept or deleted; removal of directories is not judged (the statement is about regular files)",
-		"one server zone (Europe/Rome), one clock value; ages are around the delays (+-1 microsecond, between two delays, 400 days); fMP4 extension only",
+		"one server zone (Europe/Rome), one clock value; common scenarios: ages around the delays (+-1 microsecond, between two delays, 400 days); order scenarios: instants days to decades old, " +
+			"some named under another zone offset (zone-first layout); fMP4 extension only",
+		"order scenarios: the layouts are day-first, month-first, day-first date directories, %s with 8/9/10-digit instants, %z before the date, %z after the time across the 2025-10-26 DST overlap; " +
+			"the walk order is the one filepath.WalkDir yields on the real tree (self-checked to alternate fresh/expired)",
 		"the first pass is the one Cleaner.run() performs at start, the second runs through the shim after the real ReloadPathConfs and Close; timer-driven passes (>= 15 min) never fire",
 	}
 	os.RemoveAll(base)
